@@ -131,6 +131,10 @@ pub enum Op {
     Exit,
     /// call a `#[trace]` function under the current context
     TraceFn { kind: u8 },
+    /// `inner` is executed from a destructor while the thread unwinds from a panic that has
+    /// nothing to do with tracing (`std::thread::panicking()` is true during the call); the panic
+    /// is caught right outside. What the operation means is unchanged.
+    WhilePanicking { inner: Box<Op> },
 }
 
 #[derive(Clone, Debug, Serialize, Deserialize, PartialEq)]
@@ -153,6 +157,10 @@ pub struct Program {
     /// at birth, and may be born while a collector cycle is in progress
     #[serde(default)]
     pub lazy_reg: bool,
+    /// every collector cycle of the program is followed at once by this many further cycles (a
+    /// collector that keeps cycling while nothing happens)
+    #[serde(default)]
+    pub idle_cycles: u32,
 }
 
 /// Op kinds, used as weight indices.
@@ -195,6 +203,7 @@ pub enum K {
     Churn,
     Exit,
     TraceFn,
+    WhilePanicking,
     N_,
 }
 
@@ -222,6 +231,9 @@ pub struct Profile {
     pub templates: Vec<(u32, Template)>,
     /// share (in percent) of programs that run beside a pool of 33-40 registered threads
     pub pool_pct: u32,
+    /// share (in percent) of programs whose collector cycles are each followed by hundreds to
+    /// tens of thousands of idle cycles (hooked scheduler only: a real flush() per cycle is too slow)
+    pub idle_pct: u32,
 }
 
 #[derive(Clone, Copy, Debug, PartialEq)]
@@ -248,6 +260,10 @@ pub enum Template {
     /// span and exits, a vthread born afterwards makes its first tracing call, then the target
     /// finishes
     PoolHandoff,
+    /// beside a pool of registered threads: an adapter bound to a span is created and polled once
+    /// on one vthread, then completed (or dropped) on a short-lived vthread that exits; a vthread
+    /// born afterwards makes its first tracing call; then the trace finishes
+    PoolAdapter,
     /// a scope with open local spans is filled to (or just short of) its limit; local spans,
     /// events and properties follow while it is full, then everything unwinds
     ScopeFull,
@@ -266,6 +282,7 @@ impl Profile {
             (K::EnterLocal, 14),
             (K::PopGuard, 18),
             (K::Finish, 14),
+            (K::WhilePanicking, 2),
         ] {
             w[k as usize] = v;
         }
@@ -286,6 +303,7 @@ impl Profile {
             unique_traces: false,
             templates: vec![],
             pool_pct: 0,
+            idle_pct: 0,
         }
     }
     pub fn set(mut self, ks: &[(K, u32)]) -> Self {
@@ -341,9 +359,17 @@ pub fn op_strategy(p: &Profile) -> BoxedStrategy<Op> {
         Just(vec![]).boxed()
     };
     let mut v: Vec<(u32, BoxedStrategy<Op>)> = Vec::new();
+    let mut inner: Vec<(u32, BoxedStrategy<Op>)> = Vec::new();
     let mut add = |k: K, st: BoxedStrategy<Op>| {
         let w = p.w[k as usize];
         if w > 0 {
+            if matches!(
+                k,
+                K::Root | K::Child | K::MultiChild | K::ChildOfLocal | K::SetLocalParent | K::EnterLocal | K::CollectorStart | K::PopGuard | K::PushChildSpans
+                    | K::AddPropsH | K::AddPropsL | K::AddEventH | K::AddEventL | K::Finish | K::Cancel | K::CtxOfSpan | K::CtxOfLocal | K::Probe | K::Drive | K::DropAdapter | K::TraceFn
+            ) {
+                inner.push((w, st.clone()));
+            }
             v.push((w, st));
         }
     };
@@ -474,6 +500,10 @@ pub fn op_strategy(p: &Profile) -> BoxedStrategy<Op> {
     add(K::Churn, prop_oneof![3 => 1u8..8, 1 => 60u8..72, 1 => 128u8..135].prop_map(|k| Op::Churn { k }).boxed());
     add(K::Exit, Just(Op::Exit).boxed());
     add(K::TraceFn, (0u8..4).prop_map(|kind| Op::TraceFn { kind }).boxed());
+    let wp = p.w[K::WhilePanicking as usize];
+    if wp > 0 && !inner.is_empty() {
+        v.push((wp, Union::new_weighted(inner).prop_map(|o| Op::WhilePanicking { inner: Box::new(o) }).boxed()));
+    }
     Union::new_weighted(v).boxed()
 }
 
@@ -516,7 +546,7 @@ fn template_strategy(p: &Profile, t: Template) -> BoxedStrategy<Program> {
                 t0.push(Op::Finish { span: 0 });
                 t0.push(Op::Flush);
                 t0.extend(post);
-                Program { cancelable, threads: vec![t0, other], cycles, schedule, fine: false, pool: 0, lazy_reg: false }
+                Program { cancelable, threads: vec![t0, other], cycles, schedule, fine: false, pool: 0, lazy_reg: false, idle_cycles: 0 }
             })
             .boxed(),
         Template::Forest => (
@@ -589,7 +619,7 @@ fn template_strategy(p: &Profile, t: Template) -> BoxedStrategy<Program> {
                 }
                 t1.push(Op::ToSpanRecords { set: 0, tc: 1, tr: 77, pr: 99 });
                 t1.extend(tail);
-                Program { cancelable, threads: vec![t0, t1], cycles, schedule, fine: false, pool: 0, lazy_reg: false }
+                Program { cancelable, threads: vec![t0, t1], cycles, schedule, fine: false, pool: 0, lazy_reg: false, idle_cycles: 0 }
             })
             .boxed(),
         Template::FanIn => (canc, 1usize..4, proptest::collection::vec(op.clone(), 0..3), proptest::collection::vec(op.clone(), 0..3), 1u8..6, sched)
@@ -605,7 +635,7 @@ fn template_strategy(p: &Profile, t: Template) -> BoxedStrategy<Program> {
                 }
                 t1.extend(b);
                 let t2 = vec![Op::Flush, Op::Finish { span: 0 }];
-                Program { cancelable, threads: vec![t0, t1, t2], cycles, schedule, fine: false, pool: 0, lazy_reg: false }
+                Program { cancelable, threads: vec![t0, t1, t2], cycles, schedule, fine: false, pool: 0, lazy_reg: false, idle_cycles: 0 }
             })
             .boxed(),
         Template::Extract => (canc, proptest::collection::vec(op.clone(), 0..6), any::<bool>(), any::<bool>(), 0u8..3, sched)
@@ -626,7 +656,7 @@ fn template_strategy(p: &Profile, t: Template) -> BoxedStrategy<Program> {
                 t0.push(Op::CtxOfLocal);
                 t0.push(Op::RootFromCtx { ctx: 65535, via_tp, s: StrSeed { c: 0, l: 3 } });
                 t0.extend(tail);
-                Program { cancelable, threads: vec![t0], cycles, schedule, fine: false, pool: 0, lazy_reg: false }
+                Program { cancelable, threads: vec![t0], cycles, schedule, fine: false, pool: 0, lazy_reg: false, idle_cycles: 0 }
             })
             .boxed(),
         Template::FullThenTrace => (
@@ -660,12 +690,12 @@ fn template_strategy(p: &Profile, t: Template) -> BoxedStrategy<Program> {
                 t0.push(Op::Finish { span: 65535 });
                 let mut t1 = vec![Op::Child { parents: vec![65535], np: 0, s: StrSeed { c: 0, l: 1 } }, Op::Finish { span: 65535 }];
                 t1.extend(other);
-                Program { cancelable, threads: vec![t0, t1], cycles, schedule, fine: false, pool: 0, lazy_reg: false }
+                Program { cancelable, threads: vec![t0, t1], cycles, schedule, fine: false, pool: 0, lazy_reg: false, idle_cycles: 0 }
             })
             .boxed(),
         Template::PoolHandoff => (
             canc,
-            33u8..41,
+            prop_oneof![3 => 33u8..41, 2 => 64u8..73, 1 => 128u8..137],
             proptest::collection::vec(
                 prop_oneof![
                     3 => (1u8..3, strseed(p.str_classes)).prop_map(|(n, s)| Op::AddProps { handle: Some(0), n, s, re: vec![] }),
@@ -700,7 +730,45 @@ fn template_strategy(p: &Profile, t: Template) -> BoxedStrategy<Program> {
                 t2.extend(newcomer);
                 // t0 creates the root; t1 runs to its exit; t2 (a new thread) runs; t0 finishes and flushes
                 let schedule = vec![(0u8, 1u8), (86, 255), (128, 255)];
-                Program { cancelable, threads: vec![t0, t1, t2], cycles: 0, schedule, fine: false, pool, lazy_reg: false }
+                Program { cancelable, threads: vec![t0, t1, t2], cycles: 0, schedule, fine: false, pool, lazy_reg: false, idle_cycles: 0 }
+            })
+            .boxed(),
+        Template::PoolAdapter => (
+            canc,
+            prop_oneof![3 => 33u8..41, 2 => 64u8..73, 1 => 128u8..137],
+            proptest::sample::select(if p.adapter_kinds.is_empty() { vec![AdapterKind::InSpan] } else { p.adapter_kinds.clone() }),
+            proptest::collection::vec(poll_script(p), 1..5),
+            any::<bool>(),
+            any::<bool>(),
+            proptest::sample::select(vec![Entry::PollNext, Entry::PollReady, Entry::PollFlush, Entry::PollClose]),
+            proptest::collection::vec(op.clone(), 0..3),
+            proptest::collection::vec(op.clone(), 0..3),
+        )
+            .prop_map(move |(cancelable, pool, kind, script, bind_root, drop_it, entry, newcomer, tail)| {
+                let polls = script.len();
+                let mut t0 = vec![root.clone()];
+                if !bind_root {
+                    t0.push(Op::Child { parents: vec![0], np: 0, s: StrSeed { c: 0, l: 1 } });
+                }
+                t0.push(Op::Wrap { kind, span: 65535, s: StrSeed { c: 0, l: 2 }, script });
+                t0.push(Op::Drive { a: 0, entry });
+                let mut t1 = vec![];
+                for _ in 0..polls {
+                    t1.push(Op::Drive { a: 0, entry });
+                }
+                t1.push(if drop_it { Op::DropAdapter { a: 0 } } else { Op::Drive { a: 0, entry: Entry::PollClose } });
+                t1.push(Op::Exit);
+                let mut t2 = vec![Op::Root { tc: 0, tr: 1, pc: 0, pr: 0, sampled: true, np: 0, s: StrSeed { c: 0, l: 1 } }];
+                t2.extend(newcomer);
+                let n0 = t0.len() as u8;
+                t0.extend(tail);
+                if !bind_root {
+                    t0.push(Op::Finish { span: 0 });
+                }
+                t0.push(Op::Flush);
+                // t0 up to its first poll; t1 to its exit; t2 (a new thread); t0 finishes and flushes
+                let schedule = vec![(0u8, n0), (86, 255), (128, 255)];
+                Program { cancelable, threads: vec![t0, t1, t2], cycles: 0, schedule, fine: false, pool, lazy_reg: false, idle_cycles: 0 }
             })
             .boxed(),
         Template::ScopeFull => (
@@ -737,7 +805,7 @@ fn template_strategy(p: &Profile, t: Template) -> BoxedStrategy<Program> {
                 t0.push(Op::Burst { n, kind });
                 t0.extend(during);
                 t0.extend(tail);
-                Program { cancelable, threads: vec![t0], cycles, schedule, fine: false, pool: 0, lazy_reg: false }
+                Program { cancelable, threads: vec![t0], cycles, schedule, fine: false, pool: 0, lazy_reg: false, idle_cycles: 0 }
             })
             .boxed(),
         Template::ParkedBacklog => (canc, proptest::collection::vec(op.clone(), 0..3), proptest::collection::vec(op.clone(), 0..5), 10250u16..10400, 1u8..4, sched)
@@ -746,7 +814,7 @@ fn template_strategy(p: &Profile, t: Template) -> BoxedStrategy<Program> {
                 t0.retain(|o| !matches!(o, Op::Fill { .. } | Op::Volley { .. } | Op::Exit));
                 t0.push(Op::Fill { leave: 0 });
                 t0.push(Op::Volley { n });
-                Program { cancelable, threads: vec![t0, t1], cycles, schedule, fine: false, pool: 0, lazy_reg: false }
+                Program { cancelable, threads: vec![t0, t1], cycles, schedule, fine: false, pool: 0, lazy_reg: false, idle_cycles: 0 }
             })
             .boxed(),
         Template::FullExit => (canc, proptest::collection::vec(op.clone(), 0..4), proptest::collection::vec(op.clone(), 0..6), proptest::collection::vec(op.clone(), 0..6), 0u8..2, 1u8..6, sched)
@@ -757,7 +825,7 @@ fn template_strategy(p: &Profile, t: Template) -> BoxedStrategy<Program> {
                 t0.retain(|o| !matches!(o, Op::Fill { .. } | Op::Volley { .. } | Op::Exit));
                 t0.push(Op::Fill { leave });
                 t0.push(Op::Exit);
-                Program { cancelable, threads: vec![t0, t1, t2], cycles, schedule, fine: false, pool: 0, lazy_reg: false }
+                Program { cancelable, threads: vec![t0, t1, t2], cycles, schedule, fine: false, pool: 0, lazy_reg: false, idle_cycles: 0 }
             })
             .boxed(),
         Template::CrossQueue => (canc, any::<bool>(), proptest::collection::vec(op.clone(), 0..4), proptest::collection::vec(op, 0..4), 1u8..5, sched)
@@ -770,7 +838,7 @@ fn template_strategy(p: &Profile, t: Template) -> BoxedStrategy<Program> {
                 }
                 t1.push(Op::Finish { span: 0 });
                 t1.extend(b);
-                Program { cancelable, threads: vec![t0, t1], cycles, schedule, fine: false, pool: 0, lazy_reg: false }
+                Program { cancelable, threads: vec![t0, t1], cycles, schedule, fine: false, pool: 0, lazy_reg: false, idle_cycles: 0 }
             })
             .boxed(),
     }
@@ -778,10 +846,14 @@ fn template_strategy(p: &Profile, t: Template) -> BoxedStrategy<Program> {
 
 pub fn program_strategy(p: &Profile) -> BoxedStrategy<Program> {
     let pool_pct = p.pool_pct;
-    (program_strategy_inner(p), proptest::bool::weighted(0.3), 0u32..100, 33u8..41, proptest::bool::weighted(0.35))
-        .prop_map(move |(mut prog, fine, roll, pool, lazy_reg)| {
+    let idle_pct = p.idle_pct;
+    (program_strategy_inner(p), proptest::bool::weighted(0.3), 0u32..100, prop_oneof![3 => 33u8..41, 2 => 64u8..73, 1 => 128u8..137], proptest::bool::weighted(0.35), 0u32..100, prop_oneof![3 => 6000u32..7000, 1 => 65000u32..70000, 2 => 100u32..1200])
+        .prop_map(move |(mut prog, fine, roll, pool, lazy_reg, iroll, idle)| {
             prog.fine = fine;
             prog.lazy_reg = lazy_reg;
+            if iroll < idle_pct {
+                prog.idle_cycles = idle;
+            }
             if roll < pool_pct && prog.pool == 0 {
                 prog.pool = pool;
             }
@@ -825,6 +897,7 @@ fn program_strategy_inner(p: &Profile) -> BoxedStrategy<Program> {
             fine: false,
             pool: 0,
             lazy_reg: false,
+            idle_cycles: 0,
         })
         .boxed()
 }
